@@ -5,6 +5,8 @@ MC2Reqs == [t \in MC2Clients |-> IF t = "t1" THEN <<"a1">> ELSE <<"b1">>]
 MC2ReqsB == [t \in MC2Clients |-> IF t = "t1" THEN <<"a1", "a2">> ELSE <<"b1">>]
 MC3Clients == {"t1", "t2", "t3"}
 MC3Reqs == [t \in MC3Clients |-> IF t = "t1" THEN <<"a1">> ELSE IF t = "t2" THEN <<"b1">> ELSE <<"c1">>]
+MCPool1 == {"p1"}
+MCPool2 == {"p1", "p2"}
 MC1Clients == {"t1"}
 MC1Reqs == [t \in MC1Clients |-> <<"a1", "a2">>]
 ===================================================================================
